@@ -128,6 +128,159 @@ def dynamic_part(res, rnd, a):
     return viol, done
 
 
+def rule_text(r):
+    pre = "suspended " if r.get("suspended") else ""
+    if r["kind"] == "set":
+        return pre + ("relative:%d:set:%s:%d" % (r["period"], r["obj"], r["val"]) if r.get("period") else "absolute:%d:set:%s:%d" % (r["tick"], r["obj"], r["val"]))
+    if r["when"] == "abs":
+        return pre + "absolute:%d:show:%s:unsigned" % (r["tick"], r["obj"])
+    if r["when"] == "rel":
+        return pre + "relative:%d:show:%s:unsigned" % (r["period"], r["obj"])
+    return pre + "%s:show:%s:unsigned" % (r["when"], r["obj"])
+
+
+def sb_rule(r):
+    T = {"abs": 0, "rel": 2, "onvalid": 3, "onexit": 5}
+    if r["kind"] == "set":
+        return {"Timec": 2 if r.get("period") else 0, "Tick": r.get("period") or r["tick"], "Action": 0, "Object": r["obj"], "Extra": str(r["val"]),
+                "Suspended": bool(r.get("suspended"))}
+    return {"Timec": T[r["when"]], "Tick": r.get("period") or r.get("tick") or 0, "Action": 2, "Object": r["obj"], "Extra": "unsigned",
+            "Suspended": bool(r.get("suspended"))}
+
+
+def object_value(snap, obj):
+    m = re.fullmatch(r"p0r(\d+)", obj)
+    if m:
+        return snap["procs"][0]["regs"][int(m.group(1))]
+    m = re.fullmatch(r"p0i(\d+)", obj)
+    if m:
+        return snap["procs"][0]["in"][int(m.group(1))]
+    m = re.fullmatch(r"p0o(\d+)", obj)
+    if m:
+        return snap["procs"][0]["out"][int(m.group(1))]
+    m = re.fullmatch(r"i(\d+)", obj)
+    if m:
+        return snap["in"][int(m.group(1))]
+    return snap["out"][int(obj[1:])]
+
+
+def dynamic_shows(res, rnd, a):
+    """show rules (absolute, periodic, on-valid, on-exit) and periodic set rules in a real simulation (cmd/bondmachine -sim) against
+    their stated meaning read off a reference run of the VM: a show rule prints the value the named object has after that tick, in
+    rule order; a periodic rule acts on every tick that is a multiple of its period; an on-valid rule fires on exactly the ticks at
+    which the object's valid flag rises; an on-exit rule fires once, when the simulation stops; suspended rules do nothing"""
+    import os, shutil, subprocess, tempfile
+    import c07
+    c07.build_tools()
+    n = 8 if a.tier == "quick" else 80
+    viol, done = [], 0
+    hist = {"abs_show": 0, "rel_show": 0, "onvalid_show": 0, "onexit_show": 0, "rel_set": 0, "abs_set": 0, "suspended": 0, "stop_on_valid": 0}
+    work = tempfile.mkdtemp(prefix="verif-c15s-")
+    try:
+        for k in range(n):
+            N = rnd.choice([1, 2])
+            prog = ["i2r r%d i%d" % (i, i) for i in range(N)] + ["add r0 r3", "inc r2", "r2owa r0 o0", "r2o r2 o1", "j 0"]
+            M = 2
+            ops = sorted(set(l.split()[0] for l in prog) | {"nop"})
+            spec = {"rsize": 8, "procs": [{"arch": {"R": 2, "N": N, "M": M, "L": 0, "O": 4, "ops": ops, "mode": "ha", "rsize": 8}, "prog": prog}],
+                    "inputs": N, "outputs": M, "bonds": [["p0i%d" % i, "i%d" % i] for i in range(N)] + [["o%d" % o, "p0o%d" % o] for o in range(M)]}
+            ticks = 16
+            objs = ["i%d" % i for i in range(N)] + ["o0", "o1", "p0r0", "p0r2", "p0r3", "p0o0", "p0o1"] + ["p0i%d" % i for i in range(N)]
+            rules = []
+            for _ in range(rnd.randint(1, 3)):
+                if rnd.random() < 0.4:
+                    rules.append({"kind": "set", "period": rnd.choice([2, 3, 5]), "tick": 0, "obj": rnd.choice(["i0", "p0r3"]), "val": rnd.randrange(1, 200)})
+                else:
+                    rules.append({"kind": "set", "tick": rnd.randrange(ticks - 2), "obj": rnd.choice(["i%d" % rnd.randrange(N), "p0r3"]), "val": rnd.randrange(1, 200)})
+            # at most one set rule per object (periodic and absolute sets of one object have no stated order)
+            seen, uniq = set(), []
+            for r in rules:
+                if r["obj"] not in seen:
+                    seen.add(r["obj"])
+                    uniq.append(r)
+            rules = uniq
+            for _ in range(rnd.randint(2, 5)):
+                w = rnd.choice(["abs", "abs", "rel", "onvalid", "onexit"])
+                r = {"kind": "show", "when": w, "obj": rnd.choice(objs)}
+                if w == "abs":
+                    r["tick"] = rnd.randrange(ticks)
+                elif w == "rel":
+                    r["period"] = rnd.choice([1, 2, 3, 4, 7])
+                elif w == "onvalid":
+                    r["obj"] = "o0"
+                rules.append(r)
+            for r in rules:
+                r["suspended"] = rnd.random() < 0.2
+            stop = rnd.random() < 0.5          # -sim-stop-on-valid-of 0: the run ends when o0 is valid at the start of an iteration
+            sets = [{"tick": r["tick"], "period": r.get("period", 0), "obj": r["obj"], "val": r["val"], "suspended": r["suspended"]} for r in rules if r["kind"] == "set"]
+            ref = simlib.run_sims([{"bm": spec, "env": [], "ticks": ticks, "rules": sets}])[0]
+            saved = C.jsonl(C.sh([C.BMH, "c11", "save"], input=json.dumps({"bm": spec}) + "\n").stdout)[0]
+            d = os.path.join(work, "c%d" % k)
+            os.mkdir(d)
+            open(os.path.join(d, "bm.json"), "w").write(saved["json"])
+            sb = {"Rules": [sb_rule(r) for r in rules] + [{"Timec": 1, "Tick": 0, "Action": 3, "Object": "show_ticks", "Extra": "", "Suspended": False}]}
+            open(os.path.join(d, "sb.json"), "w").write(json.dumps(sb))
+            cmd = [c07.tool("bondmachine"), "-bondmachine-file", "bm.json", "-sim", "-simbox-file", "sb.json", "-sim-interactions", str(ticks)]
+            if stop:
+                cmd += ["-sim-stop-on-valid-of", "0"]
+            p = subprocess.run(cmd, cwd=d, env=C.GOENV, stdout=subprocess.PIPE, stderr=subprocess.STDOUT, text=True, timeout=120)
+            meta = {"machine": spec, "rules": [rule_text(r) for r in rules], "stop_on_valid_of_0": stop}
+            res.count_case(meta, nontrivial=True)
+            if ref.get("err") or "Absolute tick:0" not in p.stdout:
+                viol.append(("the simulation with rules %s cannot be run: %s" % (meta["rules"], ref.get("err") or p.stdout[-300:]), meta))
+                continue
+            done += 1
+            for r in rules:
+                if r["suspended"]:
+                    hist["suspended"] += 1
+                elif r["kind"] == "set":
+                    hist["rel_set" if r.get("period") else "abs_set"] += 1
+                else:
+                    hist[{"abs": "abs_show", "rel": "rel_show", "onvalid": "onvalid_show", "onexit": "onexit_show"}[r["when"]]] += 1
+            hist["stop_on_valid"] += int(stop)
+            # what was printed: per iteration, the show line (if any)
+            got, cur = [], None
+            for line in p.stdout.splitlines():
+                if line.startswith("Absolute tick:"):
+                    cur = int(line.split(":")[1])
+                elif cur is not None and re.fullmatch(r"[0-9]+( [0-9]+)* ?", line):
+                    got.append((cur, [int(x) for x in line.split()]))
+            # what the rules say: Showables are numbered in rule order (one per distinct object), printed in that order
+            active = [r for r in rules if r["kind"] == "show" and not r["suspended"]]
+            order = []
+            for r in active:
+                if r["obj"] not in order:
+                    order.append(r["obj"])
+            snaps = ref["ticks"]
+            want = []
+            for t in range(ticks):
+                exiting = stop and t > 0 and snaps[t - 1]["outv"][0]
+                snap = snaps[t - 1] if exiting else snaps[t]
+                fire = set()
+                for r in active:
+                    if r["when"] == "abs" and r["tick"] == t:
+                        fire.add(r["obj"])
+                    elif r["when"] == "rel" and t % r["period"] == 0:
+                        fire.add(r["obj"])
+                    elif r["when"] == "onexit" and exiting:
+                        fire.add(r["obj"])
+                    elif r["when"] == "onvalid" and not exiting and snaps[t]["outv"][0] and not (t > 0 and snaps[t - 1]["outv"][0]):
+                        fire.add(r["obj"])
+                if fire:
+                    # in the stopping iteration nothing is stepped or printed before the show line: it follows the previous tick's header
+                    want.append((t - 1 if exiting else t, [object_value(snap, o) for o in order if o in fire]))
+                if exiting:
+                    break
+            if got != want:
+                k2 = next((j for j in range(max(len(got), len(want))) if j >= len(got) or j >= len(want) or got[j] != want[j]), 0)
+                viol.append(("with rules %s%s the simulation prints %s (after the header of tick, values); applying the rules as written gives %s"
+                             % (meta["rules"], " and -sim-stop-on-valid-of 0" if stop else "", got[k2] if k2 < len(got) else "nothing more",
+                                want[k2] if k2 < len(want) else "nothing more"), meta))
+    finally:
+        shutil.rmtree(work, ignore_errors=True)
+    return viol, done, hist
+
+
 def run(res, a):
     failed = C.proof_part(res, "C15", trusted=["harness/c15.go + lib/c15.py as the tie", "model Front/Simbox.v (hand-written)"])
     C.build_harness()
@@ -188,8 +341,12 @@ def run(res, a):
             k += 1
     dyn_viol, dyn_n = dynamic_part(res, rnd, a)
     viol += dyn_viol
+    sh_viol, sh_n, sh_hist = dynamic_shows(res, rnd, a)
+    viol += sh_viol
     cov = res.coverage
     cov["rules_applied_in_simulation_compared"] = dyn_n
+    cov["show_and_periodic_rules_in_simulation_compared"] = sh_n
+    cov["show_and_periodic_rules_histogram"] = sh_hist
     cov["rule"] = ("rule-list histories: add (every rule form x object/extra/tick pools incl. boundary ticks, signs, malformed text), "
                    "del/suspend/reactivate with in-range, negative and too-large indices; JSON save/load of the final list; "
                    "non-trivial = at least two accepted rules; distinct by hash")
